@@ -590,7 +590,8 @@ def allEq : Vec → Bool
 
 def Xf.wfH (c : Cls) (h : Mat) : Bool :=
   match c with
-  | .Homogeneous => decide (2 ≤ h.length) && isSquare h h.length
+  | .Homogeneous =>          -- any rectangular matrix (n_dims_output + 1) × (n_dims + 1): projections included
+      decide (2 ≤ h.length) && decide (2 ≤ (h.headD []).length) && h.all (fun r => r.length == (h.headD []).length)
   | .Affine | .AlignmentAffine => affineWF h
   | .Similarity | .AlignmentSimilarity => affineWF h &&
       (match h with
